@@ -149,5 +149,6 @@ def run_bounded(rep, quick):
         'truth table (spec evaluator), argument snapshot unchanged, size, WF; one evaluation = one (circuit, pipeline) pair; '
         'non-trivial = circuit with >=1 non-input gate',
         'K<=2 exhaustive (reduced alphabet in quick); repeated-operand family 504 (quick) / 1296 (thorough) circuits of 5-9 gates; '
+        'unary-chain family (chains of 2..6 (quick) / 2..8 (thorough) NOT/LNOT/RNOT/IFF/LIFF/RIFF gates, tapped at the end, at every member and by consumers; 300 / 420 circuits); '
         'random K<=8 (quick) / K<=10 (thorough)', exhaustive=False)
     C.run_chunks(rep, NAME, quick, 'C03', _check)
